@@ -1,4 +1,5 @@
 import SynRBLModel.Proofs.Matcher
+import SynRBLModel.Proofs.MatcherFuel
 import SynRBLModel.Proofs.Decompose
 import SynRBLModel.Model.RuleBased
 import SynRBLModel.Model.RuleDB
@@ -23,6 +24,17 @@ theorem C08_solutions_sum (db : List Rule) (hdb : goodDB db = true) (imbalance :
   intro sol hsol
   have := matchAll_sound db hdb imbalance hd sol hsol
   exact ⟨this.1, fun k => by simpa [pathVal] using this.2 k⟩
+
+/-- **C08 (termination / the fuel is irrelevant).** The Python search has no recursion bound; on a good database it
+terminates: every fuel above the number of atoms of the imbalance gives the same result, so the model's fuelled search
+*is* the unbounded search, and no completion is longer than the number of atoms it has to supply. (For a rule with a
+zero or negative count, or with only a charge key, this fails — `zeroRule_never_stabilises`, `ratioOf_onlyQ` — and the
+real code recurses forever or raises; hence the `goodDB` table obligations.) -/
+theorem C08_search_terminates (db : List Rule) (hdb : goodDB db = true) (imbalance : Dict) (hd : imbalance.WF) :
+    (∀ F, elemWeight (prepData imbalance) + 1 ≤ F →
+      matchAll db imbalance = rank (dedup (dfs (sortRules db) F (prepData imbalance) []))) ∧
+    (∀ sol ∈ matchAll db imbalance, sol.length ≤ elemWeight (prepData imbalance)) :=
+  ⟨matchAll_fuel_adequate db hdb imbalance hd, matchAll_depth_bound db hdb imbalance hd⟩
 
 /-- what `single_impute` appends is the chosen completion written out: each compound `ratio` times -/
 theorem C08_appended_tokens (db : List Rule) (diff : Dict) (toks : List String)
